@@ -309,6 +309,15 @@ class ExprMixin:
                 return Const(bool(eval(f"x {op} y", {"x": a.value, "y": b.value})))
             except Exception:
                 pass
+        if op in ("==", "!=") and isinstance(a, (PropsV, SchemaV)) and getattr(a, "cls", None) is not None:
+            m = a.cls.lookup("__eq__" if op == "==" else "__ne__")
+            model = getattr(self, "model", None)
+            if isinstance(a, SchemaV) and model is not None and op == "==" and "__eq__" in model.overrides:
+                fn = model.overrides["__eq__"][0]
+                if isinstance(fn, FuncInfo):
+                    return self._call_func(FuncV(fn, None), [a, b], {}, node)
+            if m is not None:
+                return self._invoke(FuncV(m, a), [b], {}, node)
         if op in ("==", "!="):
             r2 = self._equal(a, b)
             if r2 is not None:
@@ -528,6 +537,8 @@ class ExprMixin:
                 return recv.props
         if isinstance(recv, PropsV):
             if attr == "_registry":
+                if not recv.open:
+                    return DictV([(Const(k), v) for k, v in recv.vals.items()])
                 return Term("registry", (recv,), kind="dict", node=node)
             if attr == "__class__":
                 return ClassV(recv.cls)
@@ -587,6 +598,12 @@ class ExprMixin:
         return Term("attr", (recv, attr), kind=kind, node=node)
 
     def class_attr(self, ci: ClassInfo, recv: V, attr: str, node: Any) -> V:
+        model = getattr(self, "model", None)
+        if model is not None and attr in model.overrides and ci.is_subclass_of(model.schema_base):
+            fn = model.overrides[attr][0]
+            own = ci.lookup(attr)
+            if isinstance(fn, FuncInfo) and (own is None or own.cls is None or own.cls.qualname == model.schema_base.qualname):
+                return FuncV(fn, recv)
         m = ci.lookup(attr)
         if m is not None:
             decos = [d.id for d in m.node.decorator_list if isinstance(d, ast.Name)]
